@@ -73,7 +73,8 @@ int main(int argc, char** argv) {
       else if (k == 'S') { char buf[4096]; size_t n = hc_unhex(hc_w[3], (unsigned char*)buf, sizeof buf - 1); buf[n] = 0; vals[t] = new(String, $S(buf)); }
       else if (k == 'Y') vals[t] = builtin_type(hc_w[3]);
       else if (k == 'X') { size_t hl = strlen(hc_w[3]); var bt = hl <= 10 ? Blob5 : hl <= 24 ? Blob12 : Blob16; var b = alloc(bt); hc_unhex(hc_w[3], b, size(bt)); vals[t] = b; }
-      else if (k == 'A' || k == 'L' || k == 'U') {
+      else if (k == 'A' || k == 'L' || k == 'U' || k == 'W') {   /* W: a heap Tuple of the objects themselves (one object may appear twice) */
+        if (k == 'W') kinds[t] = 'U';
         int n = (int)hc_int(3);
         var et = n ? type_of(vals[hc_int(4)]) : Int;
         var c = k == 'A' ? (var)new(Array, et) : k == 'L' ? (var)new(List, et) : (var)new(Tuple);
